@@ -18,10 +18,11 @@ def reset_script(values=None, per=1):
 
 
 class HarnessModel:
-    def __init__(self, kind: str, D: int, extreme: float = 0.0):  # noqa: N803
+    def __init__(self, kind: str, D: int, extreme: float = 0.0, mutates: bool = False):  # noqa: N803
         self.kind = kind
         self.D = D
         self.extreme = extreme
+        self.mutates = mutates          # an ill-behaved user model that scribbles over the array it is given
         self.__name__ = f"{kind}_d{D}"
 
     def __call__(self, theta, N, seed):  # noqa: N803
@@ -48,6 +49,8 @@ class HarnessModel:
             x = np.full((N, D), float(v))
         else:
             raise ValueError(self.kind)
+        if getattr(self, "mutates", False) and isinstance(theta, np.ndarray) and theta.flags.writeable:
+            theta += 1.0
         if self.extreme > 0.0:
             u = rng.random()
             if u < self.extreme:
@@ -62,7 +65,7 @@ class HarnessModel:
         return isinstance(other, HarnessModel) and vars(self) == vars(other)
 
     def __hash__(self):
-        return hash((self.kind, self.D, self.extreme))
+        return hash((self.kind, self.D, self.extreme, getattr(self, 'mutates', False)))
 
 
 def real_data_for(kind: str, D: int, N: int, seed: int):  # noqa: N803
